@@ -5,6 +5,9 @@ import NeumannModel.Gossip.Lemmas
 -/
 namespace Neumann.Gossip
 
+instance (a b : Option Reg) : Decidable (OLe a b) := by
+  cases a <;> cases b <;> unfold OLe <;> infer_instance
+
 /-! ### `sortDesc` -/
 
 theorem insertDesc_perm (u : Update) (l : List Update) : (insertDesc u l).Perm (u :: l) := by
@@ -125,6 +128,8 @@ theorem apply_clock_mono (s : State) (o : Op) : s.clock ≤ (apply s o).clock :=
   | fail m => simp only [apply]; rw [fail_spec]; exact localOp_clock _ _ s m
   | refute m i => simp only [apply]; rw [refute_spec]; exact localOp_clock _ _ s m
   | markHealthy m => simp only [apply]; rw [markHealthy_spec]; exact localOp_clock _ _ s m
+  | tick => exact Nat.le_succ _
+  | syncTime t => simp only [apply, syncTime]; omega
 
 /-- clock and keys do not move backwards and the clock invariant is kept -/
 def Fwd (s s' : State) : Prop :=
@@ -502,5 +507,201 @@ theorem runEv_wf (g : Mgr) (h : WF g.st) (evs : List MEv) : WF (g.runEv evs).st 
   induction evs generalizing g with
   | nil => exact h
   | cons e es ih => exact ih (g.stepEv e) (stepEv_fwd g h e).2.2
+
+/-! ### every manager event is a short history of public CRDT operations -/
+
+def Mgr.expireOps (g : Mgr) : List Nat → List Op
+  | [] => []
+  | m :: ms =>
+    if g.suspicions.contains m then
+      .fail m :: Mgr.expireOps { g with suspicions := g.suspicions.filter (· ≠ m), st := (fail g.st m).1 } ms
+    else Mgr.expireOps g ms
+
+/-- the operations of `LWWMembershipState` an event performs, in order -/
+def Mgr.evOps (g : Mgr) : MEv → List Op
+  | .msg (.sync s b t) =>
+    let s1 := syncTime g.st t
+    let filtered := b.filter (passesDelta s1 g.maxDelta)
+    let s2 := (merge s1 filtered).1
+    let senderInc := match s2.regs s with | some e => e.inc | none => 0
+    [.syncTime t, .merge filtered, .merge [⟨s, ⟨.healthy, s2.clock + 1, senderInc⟩⟩]]
+  | .msg (.suspect m i) =>
+    if m = g.local_ then [] else if g.suspicions.contains m then [] else [.suspect m i]
+  | .msg (.alive m i) =>
+    let cur := match g.st.regs m with | some e => e.inc | none => 0
+    if i - cur > g.maxDelta then [] else [.refute m i]
+  | .msg (.addPeer p) =>
+    match g.st.regs p with
+    | some _ => []
+    | none => [.tick, .merge [⟨p, ⟨.unknown, g.st.clock + 1, 0⟩⟩]]
+  | .msg (.pingAck t ok) =>
+    if ok then (match g.st.regs t with | some _ => [.markHealthy t] | none => []) else []
+  | .round _ _ ex => g.expireOps ex
+  | .suspectNode m => if g.suspicions.contains m then [] else [.suspect m (g.suspectInc m)]
+
+/-- no `update_local` in it (the only operation with a precondition) -/
+def NoUpdateLocal : List Op → Prop
+  | [] => True
+  | .updateLocal _ _ _ :: _ => False
+  | _ :: os => NoUpdateLocal os
+
+theorem admissible_of_noUpdateLocal {s : State} {ops : List Op} (h : NoUpdateLocal ops) : Admissible s ops := by
+  induction ops generalizing s with
+  | nil => trivial
+  | cons o os ih =>
+    cases o with
+    | updateLocal _ _ _ => exact absurd h (by simp [NoUpdateLocal])
+    | merge _ => exact ⟨trivial, ih h⟩
+    | suspect _ _ => exact ⟨trivial, ih h⟩
+    | fail _ => exact ⟨trivial, ih h⟩
+    | refute _ _ => exact ⟨trivial, ih h⟩
+    | markHealthy _ => exact ⟨trivial, ih h⟩
+    | tick => exact ⟨trivial, ih h⟩
+    | syncTime _ => exact ⟨trivial, ih h⟩
+
+theorem expireOps_noUL (g : Mgr) (ms : List Nat) : NoUpdateLocal (g.expireOps ms) := by
+  induction ms generalizing g with
+  | nil => trivial
+  | cons m ms ih =>
+    unfold Mgr.expireOps
+    split
+    · exact ih _
+    · exact ih g
+
+theorem evOps_noUL (g : Mgr) (e : MEv) : NoUpdateLocal (g.evOps e) := by
+  cases e with
+  | msg x =>
+    cases x with
+    | sync s b t => simp [Mgr.evOps, NoUpdateLocal]
+    | suspect m i => simp only [Mgr.evOps]; repeat' split
+                     all_goals simp [NoUpdateLocal]
+    | alive m i => simp only [Mgr.evOps]; repeat' split
+                   all_goals simp [NoUpdateLocal]
+    | addPeer p => simp only [Mgr.evOps]; repeat' split
+                   all_goals simp [NoUpdateLocal]
+    | pingAck t ok => simp only [Mgr.evOps]; repeat' split
+                      all_goals simp [NoUpdateLocal]
+  | round o k ex => exact expireOps_noUL g ex
+  | suspectNode m => simp only [Mgr.evOps]; repeat' split
+                     all_goals simp [NoUpdateLocal]
+
+theorem expire_eq_run (g : Mgr) (ms : List Nat) : (g.expire ms).st = run g.st (g.expireOps ms) := by
+  induction ms generalizing g with
+  | nil => rfl
+  | cons m ms ih =>
+    unfold Mgr.expire Mgr.expireOps
+    split
+    · rw [ih]; rfl
+    · exact ih g
+
+theorem refute_refused {s : State} {m i : Nat} (h : (refute s m i).2 = false) : (refute s m i).1 = s := by
+  rw [refute_spec] at h ⊢
+  rcases localOp_cases (fun e => i > e.inc) (fun _ t => ⟨.healthy, t, i⟩) s m with h' | ⟨e, _, _, h'⟩
+  · rw [h']
+  · rw [h'] at h; cases h
+
+theorem stepEv_eq_run (g : Mgr) (e : MEv) : (g.stepEv e).st = run g.st (g.evOps e) := by
+  cases e with
+  | msg x =>
+    cases x with
+    | sync s b t => rfl
+    | suspect m i =>
+      simp only [Mgr.stepEv, Mgr.handle, Mgr.handleSuspect, Mgr.evOps]
+      repeat' split
+      all_goals rfl
+    | alive m i =>
+      have key : ∀ cur : Nat,
+          (if i - cur > g.maxDelta then { g with rejected := g.rejected + 1 }
+            else if (refute g.st m i).2 = true then
+              { g with st := (refute g.st m i).1, suspicions := g.suspicions.filter (· ≠ m) } else g).st
+          = run g.st (if i - cur > g.maxDelta then [] else [Op.refute m i]) := by
+        intro cur
+        by_cases hd : i - cur > g.maxDelta
+        · simp only [hd, if_true]; rfl
+        · simp only [hd, if_false]
+          cases hr : (refute g.st m i).2 with
+          | true => simp only [if_true]; rfl
+          | false =>
+            simp only [Bool.false_eq_true, if_false]
+            exact (refute_refused hr).symm
+      simp only [Mgr.stepEv, Mgr.handle, Mgr.handleAlive, Mgr.evOps]
+      cases g.st.regs m with
+      | none => exact key 0
+      | some e => exact key e.inc
+    | addPeer p =>
+      simp only [Mgr.stepEv, Mgr.handle, Mgr.addPeer, Mgr.evOps]
+      cases g.st.regs p <;> rfl
+    | pingAck t ok =>
+      simp only [Mgr.stepEv, Mgr.handle, Mgr.handlePingAck, Mgr.evOps]
+      cases ok with
+      | false => rfl
+      | true => simp only [if_true]; cases g.st.regs t <;> rfl
+  | round o k ex => exact expire_eq_run g ex
+  | suspectNode m =>
+    simp only [Mgr.stepEv, Mgr.suspectNode, Mgr.evOps]
+    split <;> rfl
+
+/-- the whole CRDT history of a manager: its constructor's `update_local`, then the operations of
+    every event -/
+def Mgr.historyFrom (g : Mgr) : List MEv → List Op
+  | [] => []
+  | e :: es => g.evOps e ++ Mgr.historyFrom (g.stepEv e) es
+
+theorem historyFrom_noUL (g : Mgr) (evs : List MEv) : NoUpdateLocal (g.historyFrom evs) := by
+  induction evs generalizing g with
+  | nil => trivial
+  | cons e es ih =>
+    have h1 := evOps_noUL g e
+    have h2 := ih (g.stepEv e)
+    unfold Mgr.historyFrom
+    generalize g.evOps e = a at h1
+    induction a with
+    | nil => exact h2
+    | cons o os iho =>
+      cases o with
+      | updateLocal _ _ _ => exact absurd h1 (by simp [NoUpdateLocal])
+      | merge _ => exact iho h1
+      | suspect _ _ => exact iho h1
+      | fail _ => exact iho h1
+      | refute _ _ => exact iho h1
+      | markHealthy _ => exact iho h1
+      | tick => exact iho h1
+      | syncTime _ => exact iho h1
+
+theorem runEv_eq_run (g : Mgr) (evs : List MEv) : (g.runEv evs).st = run g.st (g.historyFrom evs) := by
+  induction evs generalizing g with
+  | nil => rfl
+  | cons e es ih =>
+    have : g.runEv (e :: es) = (g.stepEv e).runEv es := rfl
+    rw [this, ih, stepEv_eq_run,
+      show g.historyFrom (e :: es) = g.evOps e ++ (g.stepEv e).historyFrom es from rfl, run_append]
+
+def Mgr.history (loc : Nat) (d : Nat) (evs : List MEv) : List Op :=
+  .updateLocal loc .healthy 0 :: (Mgr.new loc d).historyFrom evs
+
+theorem mgr_history_admissible (loc d : Nat) (evs : List MEv) : Admissible State.empty (Mgr.history loc d evs) :=
+  show OpOk _ _ ∧ Admissible _ _ from
+    ⟨fun _ h => (by cases h), admissible_of_noUpdateLocal (historyFrom_noUL _ evs)⟩
+
+theorem mgr_history_run (loc d : Nat) (evs : List MEv) :
+    ((Mgr.new loc d).runEv evs).st = run State.empty (Mgr.history loc d evs) := by
+  rw [runEv_eq_run]; rfl
+
+/-- a Sync whose states for `m` are all dominated by the held register leaves it alone -/
+theorem handleSync_absorbs (g : Mgr) (s : Nat) (b : List Update) (t : Nat) (m : Nat) (hm : m ≠ s)
+    (hold : ∀ u ∈ b, u.node = m → OLe (some u.reg) (g.st.regs m)) :
+    (g.handleSync s b t).st.regs m = g.st.regs m := by
+  unfold Mgr.handleSync
+  simp only []
+  rw [merge_apply, merge_apply]
+  have hs : ¬ s = m := fun e => hm e.symm
+  have h1 : ∀ r : Reg, forMember m [(⟨s, r⟩ : Update)] = [] := by
+    intro r; simp [forMember, hs]
+  rw [h1]
+  show joinList (g.st.regs m) _ = _
+  apply joinList_absorb
+  intro x hx
+  have := mem_forMember.mp hx
+  exact hold _ (List.mem_filter.mp this).1 rfl
 
 end Neumann.Gossip
